@@ -83,6 +83,7 @@ type OnWrite struct {
 
 type OnSend struct {
 	DefPkg   string // channel hooks apply only inside the package that declares them
+	OnlyFn   string // `onsend KIND:ELEM(ch, v) in FUNC: ...`: the hook applies only inside that function (and its closures)
 	Elem     string
 	Ch, Val  string
 	Requires []Clause
@@ -132,6 +133,7 @@ type FuncContract struct {
 	Trusts    []Clause
 	Watches   []GhostUpdate
 	Lenient   bool
+	RecvNonNil bool
 	CallSites []CallSiteAssert
 }
 
@@ -169,7 +171,7 @@ func newContractSet(pkg string) *ContractSet {
 	return &ContractSet{PkgPath: pkg, Preds: map[string]*PredDef{}, Fns: map[string]*SpecFn{}, Funcs: map[string]*FuncContract{}}
 }
 
-var clauseKW = map[string]bool{"onlyfor": true, "objinv": true, "typedrefs": true, "inlineobj": true, "iterates": true, "iterloop": true, "invokes": true, "hide": true, "splitforall": true, "ghost": true, "pred": true, "fn": true, "axiom": true, "lemmadef": true, "onwrite": true, "onsend": true,
+var clauseKW = map[string]bool{"recvnonnil": true, "onlyfor": true, "objinv": true, "typedrefs": true, "inlineobj": true, "iterates": true, "iterloop": true, "invokes": true, "hide": true, "splitforall": true, "ghost": true, "pred": true, "fn": true, "axiom": true, "lemmadef": true, "onwrite": true, "onsend": true,
 	"opaque": true, "transparent": true, "lenient": true, "callsite": true, "func": true, "params": true, "requires": true, "ensures": true, "modifies": true, "loop": true, "use": true,
 	"inline": true, "assumed": true, "overflow": true, "safety": true, "pure": true, "effect": true, "watch": true, "trusts": true}
 
@@ -365,6 +367,11 @@ func loadContractFile(path string, prefixed bool, pkgPath string) (*ContractSet,
 			cs.OnWrites = append(cs.OnWrites, &OnWrite{m[1], m[2], m[3], ups})
 			cur = nil
 		case "onsend":
+			onlyFn := ""
+			if m := regexp.MustCompile(`\)\s+in\s+([A-Za-z_][A-Za-z0-9_.]*)\s*:`).FindStringSubmatchIndex(rc.text); m != nil {
+				onlyFn = rc.text[m[2]:m[3]]
+				rc.text = rc.text[:m[0]+1] + ":" + rc.text[m[1]:]
+			}
 			i := strings.Index(rc.text, "):")
 			if i < 0 {
 				return nil, fmt.Errorf("%s: onsend ELEM(ch, v): ...", where)
@@ -375,7 +382,7 @@ func loadContractFile(path string, prefixed bool, pkgPath string) (*ContractSet,
 			if len(ps) != 2 {
 				return nil, fmt.Errorf("%s: onsend needs (ch, v)", where)
 			}
-			os := &OnSend{Elem: strings.TrimSpace(head[:j]), Ch: ps[0].Name, Val: ps[1].Name}
+			os := &OnSend{Elem: strings.TrimSpace(head[:j]), Ch: ps[0].Name, Val: ps[1].Name, OnlyFn: onlyFn}
 			rest := rc.text[i+2:]
 			var upd []string
 			for _, part := range strings.Split(rest, ";") {
@@ -546,6 +553,9 @@ func loadContractFile(path string, prefixed bool, pkgPath string) (*ContractSet,
 					return nil, fmt.Errorf("%s: use NAME(args)", where)
 				}
 				cur.Uses = append(cur.Uses, UseHint{c.Fun, c.Args, rc.text})
+			case "recvnonnil":
+				// the receiver of this (dependency) method is assumed non-nil at every call: no nil-receiver obligation
+				cur.RecvNonNil = true
 			case "lenient":
 				cur.Lenient = true
 			case "callsite":
